@@ -51,7 +51,7 @@ def mime_of(name):
 
 class P(ServeProp):
     ID = "C02"
-    THEOREMS = ["C02_lookup_refines", "C02_served_exact", "C02_wire_single", "C02_none_is_404", "C02_query_fragment_irrelevant", "C02_reparse_clean"]
+    THEOREMS = ["C02_lookup_refines", "C02_served_exact", "C02_wire_single", "C02_none_is_404", "C02_query_fragment_irrelevant", "C02_reparse_clean", "C02_mime_by_extension", "C02_mime_is_reference", "C02_mime_unknown_is_default", "C02_mime_tables_agree"]
     COQ_TARGETS = ["theories/Props/C02.vo", "theories/Extract.vo"]
     N_QUICK = 2000
     N_THOROUGH = 60000
